@@ -252,7 +252,8 @@ where
         }
         for (which, lp, gr) in candidates {
             rep.max("logp_error_over_tol", (lp - rl).abs() / tl);
-            if (lp - rl).abs() > tl {
+            // (written so that a NaN on one side only is a mismatch, not a pass)
+            if !((lp - rl).abs() <= tl) && !(lp.is_nan() && rl.is_nan()) && !(lp == rl) {
                 rep.violation(&format!("{sig} {which} log-density"), mon, case, json!({"x": x, "got": fj(lp), "reference": fj(rl), "tol": tl}));
                 return false;
             }
@@ -260,7 +261,7 @@ where
             for k in 0..d {
                 let tg = 200.0 * (rg[k] - pg[k]).abs() + 256.0 * eps * gscale + 64.0 * eps + extra_g;
                 rep.max("gradient_error_over_tol", (gr[k] - rg[k]).abs() / tg);
-                if (gr[k] - rg[k]).abs() > tg {
+                if !((gr[k] - rg[k]).abs() <= tg) && !(gr[k].is_nan() && rg[k].is_nan()) && !(gr[k] == rg[k]) {
                     rep.violation(&format!("{sig} {which} gradient"), mon, case,
                         json!({"x": x, "coordinate": k, "got": fj(gr[k]), "reference": fj(rg[k]), "tol": tg}));
                     return false;
